@@ -283,11 +283,22 @@ pub fn const_value_json<'tcx>(cx: &Ctx<'tcx>, v: rustc_middle::mir::ConstValue, 
     match v {
         ConstValue::Scalar(rustc_middle::mir::interpret::Scalar::Int(i)) => scalar_int_json(i, ty),
         ConstValue::ZeroSized => J::s("zst"),
-        _ => {
-            // try to destructure aggregates of scalars (e.g. CUSTOM_ALG)
-            let _ = cx;
+        ConstValue::Indirect { alloc_id, offset } => {
+            // byte arrays ([u8; N]) are read from the allocation
+            if let ty::Array(elem, len) = ty.kind() {
+                if *elem == cx.tcx.types.u8 {
+                    if let Some(n) = len.try_to_target_usize(cx.tcx) {
+                        if let rustc_middle::mir::interpret::GlobalAlloc::Memory(a) = cx.tcx.global_alloc(alloc_id) {
+                            let start = offset.bytes_usize();
+                            let bytes = a.inner().inspect_with_uninit_and_ptr_outside_interpreter(start..start + n as usize);
+                            return J::Arr(bytes.iter().map(|b| J::Int(*b as i128)).collect());
+                        }
+                    }
+                }
+            }
             J::Null
         }
+        _ => J::Null,
     }
 }
 
